@@ -247,10 +247,43 @@ class WorkflowRecovery:
         # Get the full workflow with stages
         full_workflow = self.store.retrieve(workflow.id)
 
-        # Find stages that need to be re-queued
-        stages_to_requeue: list[StageExecution] = []
         messages_queued = 0
         failed_pushes = 0
+
+        if full_workflow.status == WorkflowStatus.NOT_STARTED:
+            # Never started - e.g. a crash between storing the workflow and
+            # queueing its StartWorkflow. Re-queue the start itself: pushing
+            # StartStage for its initial stages would run them under a workflow
+            # that is still NOT_STARTED, and CompleteWorkflow can then never
+            # finish it (NOT_STARTED -> SUCCEEDED is not a valid transition).
+            # A duplicate StartWorkflow is ignored once the workflow runs.
+            try:
+                self.queue.push(
+                    StartWorkflow(
+                        execution_type=full_workflow.type.value,
+                        execution_id=full_workflow.id,
+                    )
+                )
+                return RecoveryResult(
+                    workflow_id=workflow.id,
+                    status="recovered",
+                    message="Re-queued workflow start",
+                    stages_requeued=0,
+                )
+            except Exception as e:
+                logger.warning(
+                    "Failed to re-queue StartWorkflow for %s: %s",
+                    workflow.id,
+                    e,
+                )
+                return RecoveryResult(
+                    workflow_id=workflow.id,
+                    status="failed",
+                    message=f"Failed to re-queue workflow start: {e}",
+                )
+
+        # Find stages that need to be re-queued
+        stages_to_requeue: list[StageExecution] = []
 
         for stage in full_workflow.stages:
             can_start = self._can_start(stage, full_workflow) if stage.status == WorkflowStatus.NOT_STARTED else None
